@@ -490,8 +490,9 @@ def observe_routes(routes, prefixes, pred, workdir, batch=40):
 
 # ------------------------------------------------------------------ generator of well-formed routes
 
-def gen_base_route(rng, idx):
-    """A well-formed route, with unique first segment so that no two routes conflict."""
+def gen_base_route(rng, idx, simple=False):
+    """A well-formed route, with unique first segment so that no two routes conflict.  simple: only the
+    plainest types, for the projects that must make it through the generators of the real command."""
     verb = rng.choice(["GET", "POST", "PUT", "DELETE", "PATCH"])
     segs = ["r%d" % idx]
     urlnames = []
@@ -508,7 +509,7 @@ def gen_base_route(rng, idx):
     params = []
     if rng.random() < 0.35:
         params.append({"name": "ctx", "base": "TContext", "shape": "SPlain"})
-    scalar = lambda: rng.choice(["TPrim", "TPrim", "TPrim", "TEnum", "TPrimAlias"])
+    scalar = lambda: "TPrim" if simple else rng.choice(["TPrim", "TPrim", "TPrim", "TEnum", "TPrimAlias"])
     for un in urlnames:
         if rng.random() < 0.5:
             pn, al = un, None
@@ -528,15 +529,15 @@ def gen_base_route(rng, idx):
         p = {"name": pn, "prim": rng.randrange(6)}
         if loc == "Body":
             has_body = True
-            p.update(base=rng.choice(["TStruct", "TStruct", "TTime", "TEnum", "TMap", "TNonPrimAlias"]),
-                     shape=rng.choice(["SPlain", "SPtr", "SSlice"]))
+            p.update(base="TStruct" if simple else rng.choice(["TStruct", "TStruct", "TTime", "TEnum", "TMap", "TNonPrimAlias"]),
+                     shape="SPlain" if simple else rng.choice(["SPlain", "SPtr", "SSlice"]))
             if p["base"] == "TMap":
                 p["shape"] = "SPlain"
             al = None
         else:
             has_form = has_form or loc == "FormField"
             p.update(base=scalar(), shape=rng.choice(["SPlain", "SPlain", "SPtr"]))
-            if loc == "Query" and rng.random() < 0.3:
+            if loc == "Query" and rng.random() < 0.3 and not simple:
                 p["shape"] = rng.choice(["SSlice", "SSlice", "SPtrSlice"]) if p["base"] != "TPrimAlias" else "SSlice"
             al = {"s": rng.choice(["X-" + pn, pn + "_w", pn.upper()])} if rng.random() < 0.35 else None
         attrs.append({"k": loc, "v": pn, "alias": al})
@@ -549,7 +550,8 @@ def gen_base_route(rng, idx):
     if rng.random() < 0.3:
         rng.shuffle(pp)
     rets = rng.choice([["RError"], ["RPlain", "RError"], ["RForeignStruct", "RError"], ["RLocalStruct", "RError"],
-                       ["RLocalEmbeds"], ["RPlain", "RLocalEmbeds"]])
+                       ["RLocalEmbeds"], ["RPlain", "RLocalEmbeds"]] if not simple else
+                      [["RError"], ["RPlain", "RError"], ["RForeignStruct", "RError"]])
     return {"name": "R%d" % idx, "attrs": attrs, "params": pp, "rets": rets, "pert": [], "prefix": "/c%d" % (idx % 3)}
 
 
@@ -791,7 +793,7 @@ def cli_half(rng, base_routes, bad_routes, res, tier):
     SENT_R, SENT_S = "// sentinel routes\n", '{"sentinel": true}\n'
     for k in range(2 * n):
         bad = k % 2 == 0
-        rs = [copy.deepcopy(x) for x in rng.sample(base_routes, min(3, len(base_routes)))]
+        rs = [gen_base_route(rng, 9000 + 10 * k + q, simple=True) for q in range(3)]
         if bad:
             rs.insert(rng.randrange(len(rs) + 1), copy.deepcopy(bad_routes[(k // 2) % len(bad_routes)]))
         for r in rs:
@@ -832,10 +834,14 @@ def cli_half(rng, base_routes, bad_routes, res, tier):
     for c, o in zip(cases, ok):
         if not o:
             fails.append(c)
-        elif not c["bad"] and not (c["exit"] == 0 and c["routes_state"] == "written" and c["spec_state"] == "written"):
-            # non-vacuity: a clean project must produce both files (else the generator is not producing clean projects)
-            c["note"] = "clean project did not produce both files"
-            fails.append(c)
+    # non-vacuity: clean projects must make it through (a failure in the generators is another property's
+    # business, but then this half shows nothing)
+    clean = [c for c in cases if not c["bad"]]
+    written = [c for c in clean if c["exit"] == 0 and c["routes_state"] == "written" and c["spec_state"] == "written"]
+    if len(written) * 2 < len(clean):
+        c = next(c for c in clean if c not in written)
+        c["note"] = "clean projects do not produce both files (%d of %d did)" % (len(written), len(clean))
+        fails.append(c)
     return cases, fails
 
 
@@ -873,8 +879,8 @@ def main():
         routes = [rp["input"]]
         base = []
     else:
-        nbase = 14 if a.tier == "quick" else 120
-        ndouble = 250 if a.tier == "quick" else 4000
+        nbase = 10 if a.tier == "quick" else 120
+        ndouble = 200 if a.tier == "quick" else 4000
         base = [gen_base_route(rng, i) for i in range(nbase)]
         routes = [copy.deepcopy(b) for b in base]
         singles = []
